@@ -202,6 +202,7 @@ structure SignGen (G : Type) where
   k : Nat
   witnesses : List (Nat × Option G)
   groupSign : Option G
+  deriving DecidableEq
 
 def SignGen.new {G : Type} (k : Nat) : SignGen G := ⟨k, [], none⟩
 
